@@ -1120,7 +1120,8 @@ func runColView(c *mon.Case) {
 // Spec returns the C34 check.
 func Spec() *mon.Spec {
 	return &mon.Spec{
-		ID: "C34", Level: "exploration",
+		ID:            "C34",
+		SpinViolation: true, Level: "exploration",
 		Rule: "phase wcwidth: one string (ASCII, wide, zero-width/combining, control, invalid UTF-8, mutated) x every width 0..min(width+3,60): Trim must be a prefix cut at a rune boundary, not wider than the width and the longest such; Force must have exactly the width and be the trimmed string plus spaces; Of must be the sum of the rune widths; also TrimEachLine and Override. phase bufbuilder: 1..12 random writes (Write, WriteStyled, WriteStringSGR, WriteRuneSGR, WriteSpaces, Newline, SetIndent <= width-2, SetEagerWrap, SetDotHere) at width 2..40; every line must fit, and walking the lines against the written cell stream every cell must appear once in order (caret notation for controls), every line break must be an explicit newline, a cell that did not fit, or an eager wrap of a full line. widget phases: one random widget state rendered at every width 2..40 x height 1..12 (468 sizes, lexicographic or shuffled, widget reused so that scrolling state carries over, selection moved / text scrolled in between through the public methods): lines <= height, every line <= width, dot inside. Non-trivial = string that is actually trimmed at some width; buffer with a forced wrap; widget state with content (>= 2 items / lines / columns).",
 		Assumptions: []string{
 			"negative widths are not used for Trim/Force",
